@@ -181,7 +181,12 @@ def replay_counterexample(prop, h, ovdir, target_dir, tier_cfg, scratch, res):
     """Called by the driver for a harness whose verification failed."""
     from driver import run_kani
     logfile = os.path.join(scratch, "playback-%s.log" % h.name)
-    rc, wall, cmd = run_kani(ovdir, target_dir, [h], tier_cfg, None, logfile, playback=True)
+    # trace generation makes the playback run several times slower than the verification run
+    pcfg = dict(tier_cfg)
+    base = pcfg.get("override_timeout") or h.timeout or pcfg["harness_timeout"]
+    pcfg["override_timeout"] = max(1800, 4 * base)
+    pcfg["total"] = max(pcfg.get("total", 0), pcfg["override_timeout"] + 600)
+    rc, wall, cmd = run_kani(ovdir, target_dir, [h], pcfg, None, logfile, playback=True)
     text = open(logfile, errors="replace").read()
     tests = [t for t in ov_mod_parse(text) if t[0] != "cover"]
     os.makedirs(os.path.join(VERIF, "replays"), exist_ok=True)
